@@ -142,6 +142,10 @@ func (dr *DatabaseRecovery) loadWithRetry(primaryPath, personalPath string) (*da
 		}
 	}
 
+	if lastErr == nil {
+		// No attempt was made (MaxAttempts < 1); never report success without a database
+		lastErr = fmt.Errorf("database not loaded: retry configuration allows %d attempts", dr.retryConfig.MaxAttempts)
+	}
 	return nil, lastErr
 }
 
